@@ -246,9 +246,9 @@ func TestVerifC07_ProcInteractive(t *testing.T) {
 		}
 		cur := oracle.ListCursor{}
 		history := []string{"fzf " + strings.Join(args, " ")}
-		steps := rapid.IntRange(0, 8).Draw(t, "steps")
+		steps := rapid.IntRange(0, 14).Draw(t, "steps")
 		for i := 0; i < steps; i++ {
-			a := rapid.SampledFrom([]string{"up", "down", "toggle", "toggle", "select-all", "deselect", "toggle-all"}).Draw(t, "action")
+			a := rapid.SampledFrom([]string{"up", "down", "toggle", "toggle", "toggle+up", "toggle+up", "toggle+down", "select-all", "deselect", "toggle-all"}).Draw(t, "action")
 			current := -1
 			if len(results) > 0 {
 				current = results[cur.Cy]
@@ -262,6 +262,11 @@ func TestVerifC07_ProcInteractive(t *testing.T) {
 				if current >= 0 {
 					sel.Toggle(current)
 				}
+			case "toggle+up", "toggle+down": // what the tab keys do: the order of selection is the order of the key presses
+				if current >= 0 {
+					sel.Toggle(current)
+				}
+				cur.Move(a == "toggle+up", len(results))
 			case "select-all":
 				sel.SelectAll(results)
 			case "deselect":
